@@ -5,9 +5,51 @@ package scheduler
 // Contracts for the govc verifier (/verif). This file contains comments only;
 // it does not change the compiled package.
 
+// ---------------------------------------------------------------------------
+// Lock wrappers (C14)
+
 //@ func (*InMemoryBuildQueue).enter
 //@   props C14
 //@   lockeffect bq.lock +1
 //@ func (*InMemoryBuildQueue).leave
 //@   props C14
 //@   lockeffect bq.lock -1
+
+// ---------------------------------------------------------------------------
+// Documented scheduling order (C04)
+
+// Queued operations of one invocation: priority first (lower value first),
+// then longest expected duration, then oldest queued timestamp.
+//@ pred opBefore(a *operation, b *operation) :=
+//@      a.priority < b.priority ||
+//@      (a.priority == b.priority &&
+//@        (a.task.expectedDuration > b.task.expectedDuration ||
+//@         (a.task.expectedDuration == b.task.expectedDuration &&
+//@          uf("astime", a.task.desiredState.QueuedTimestamp) < uf("astime", b.task.desiredState.QueuedTimestamp))))
+//@ func (queuedOperationsHeap).Less
+//@   props C04
+//@   requires 0 <= i && i < len(h) && 0 <= j && j < len(h)
+//@   ensures documented-order: r0 == opBefore(h[i], h[j])
+
+// A worker asking for work walks down the invocation tree. At depth k the
+// worker's stickiness window for level k (and only that one) may turn a tie in
+// favour of the invocation it last served: the locals are the suffixes [k:] of
+// the worker's last invocation keys, the platform queue's stickiness limits and
+// the worker's stickiness starting times.
+//@ func (*worker).assignNextQueuedTask
+//@   props C04
+//@   requires w.lastInvocation != nil
+//@   requires len(w.stickinessStartingTimes) == len(scq.platformQueue.workerInvocationStickinessLimits)
+//@   loop 0 invariant depth: 0 <= stickinessRetained
+//@   loop 0 invariant suffixes: len(lastInvocationKeys) > 0 ==>
+//@          suffixof(lastInvocationKeys, w.lastInvocation.invocationKeys, stickinessRetained) &&
+//@          suffixof(workerInvocationStickinessLimits, pq.workerInvocationStickinessLimits, stickinessRetained) &&
+//@          suffixof(stickinessStartingTimes, w.stickinessStartingTimes, stickinessRetained)
+//@   loop 0 invariant same-queue: pq == scq.platformQueue && w == old(w) && scq == old(scq) && bq == old(bq)
+//@   at call isPreferred#1 assert tie-break-uses-window-of-this-level:
+//@          arg2 == (w.stickinessStartingTimes[stickinessRetained] +
+//@                   pq.workerInvocationStickinessLimits[stickinessRetained] > bq.now)
+//@   at call isPreferred#1 assert sticky-candidate-is-last-invocation-at-this-level:
+//@          arg0 == i.children[w.lastInvocation.invocationKeys[stickinessRetained]]
+//@   at call isPreferred#1 assert compared-with-best-queued-child: arg1 == i.queuedChildren[0]
+//@   at call assignQueuedTask#1 assert directly-queued-first: arg2 == i.queuedOperations[0].task
